@@ -1098,7 +1098,7 @@ func (cp *capacityPlugin) buildQueueAttrs(ssn *framework.Session) {
 			if len(queue.Queue.Spec.Guarantee.Resource) != 0 {
 				attr.guarantee = api.NewResource(queue.Queue.Spec.Guarantee.Resource)
 			}
-			realCapability := api.ExceededPart(cp.totalResource, cp.totalGuarantee).Add(attr.guarantee)
+			realCapability := util.UnreservedPart(cp.totalResource, cp.totalGuarantee).Add(attr.guarantee)
 			if attr.capability == nil {
 				attr.capability = api.EmptyResource()
 				attr.realCapability = realCapability
@@ -1193,7 +1193,7 @@ func (cp *capacityPlugin) buildQueueAttrs(ssn *framework.Session) {
 		if len(queue.Queue.Spec.Guarantee.Resource) != 0 {
 			guarantee = api.NewResource(queue.Queue.Spec.Guarantee.Resource)
 		}
-		realCapacity := api.ExceededPart(cp.totalResource, cp.totalGuarantee).Add(guarantee)
+		realCapacity := util.UnreservedPart(cp.totalResource, cp.totalGuarantee).Add(guarantee)
 		if len(queue.Queue.Spec.Capability) > 0 {
 			capacity := api.NewResource(queue.Queue.Spec.Capability)
 			realCapacity.MinDimensionResource(capacity, api.Infinity)
@@ -1536,7 +1536,7 @@ func (cp *capacityPlugin) checkHierarchicalQueue(attr *queueAttr) {
 	}
 
 	for _, childAttr := range attr.children {
-		realCapability := api.ExceededPart(attr.realCapability, totalGuarantee).Add(childAttr.guarantee)
+		realCapability := util.UnreservedPart(attr.realCapability, totalGuarantee).Add(childAttr.guarantee)
 		if childAttr.capability == nil {
 			childAttr.capability = api.EmptyResource()
 			childAttr.realCapability = realCapability
